@@ -10,7 +10,11 @@ LEVEL_TEXT = ("TLC enumerates every (size 1..7, source <= 5, destination prefix 
               "postconditions of the reference (NUL-terminated, longest prefix, TRUE iff nothing cut, never longer, touched bytes within "
               "bounds, slice laws, idempotence) and emits every tuple with its expected result; each is executed on the real function in an "
               "ASan build with the destination inside an exact-size heap block between two 16-byte guard zones, in-place strings in "
-              "exact-size blocks, and buffer contents, return values and guard zones compared.")
+              "exact-size blocks, and buffer contents, return values and guard zones compared. Families beyond the small universe, evaluated "
+              "by the same TLC operators from a file: every ordered pair of byte values 1..255 at every offset mod 8 in buffers of 9..24 bytes, "
+              "size sweeps n-1, n, n+1 for n = 8..1024 (and every length 120..160, 248..272; thorough 56..300) at all 8 start alignments, copies "
+              "and slices at sizes up to 4096, every byte value as first / inner / last byte; each call after an adversarial prelude at the same "
+              "address (different content, errno preset).")
 LEVEL_NOTE = ("Exhaustive only within those bounds and alphabets. safe_strncat with a destination that holds no NUL within size bytes is run "
               "for memory safety only (value not claimed); safe_str is claimed for n <= strlen. condense_whitespace keeping one leading blank "
               "is taken as the as-built convention. Memory safety = no ASan report and intact guard zones on what was executed. Trusted: TLC, "
